@@ -129,6 +129,21 @@ def rule_threshold(ctx):
         m = re.match(r'^get_mut\((.*?), (.*)\)\?$', canon(n.place_expr(p2)))
         if m:
             writes.append((m.group(1), m.group(2), canon(n.rvalue_expr(rv)), bb, (n, bb)))
+    # entry(key).or_insert(v): writes v when the key is absent (an init write by definition); a later store through the
+    # returned reference is an update of the same slot
+    pre_kinds = {}
+    for cs in n.calls:
+        if mir.method_name(cs.name) == 'or_insert' and n.loop_depth(cs.bb) >= 1 and len(cs.args) == 2:
+            m = re.match(r'^entry\((.*?), (.*)\)$', canon(n.op_expr(cs.args[0])))
+            if m:
+                writes.append((m.group(1), m.group(2), canon(n.op_expr(cs.args[1])), cs.bb, cs))
+                pre_kinds[cs.bb] = 'init'
+    for bb, idx, p2, rv, st2 in n.stores():
+        if rv is None or n.loop_depth(bb) < 1:
+            continue
+        m = re.match(r'^or_insert\(entry\((.*?), (.*)\), (.*)\)$', canon(n.place_expr(p2)))
+        if m:
+            writes.append((m.group(1), m.group(2).rsplit('), ', 1)[0] if False else m.group(2), canon(n.rvalue_expr(rv)), bb, (n, bb)))
     tbl = set()
     kinds = []
     for t0, k0, v0, wbb, site in writes:
@@ -137,11 +152,12 @@ def rule_threshold(ctx):
         # one kind per path into the write (a single insert reached from "absent" and from "larger" counts as both)
         for gset in util.path_guard_sets(n, wbb):
             gd = [x for x in gset if 'next(' not in x]
-            if any(x.endswith(' is None') for x in gd):
+            curs2 = curs + ['or_insert(entry(new(), %s.1.blk_index), %s.0)' % (it, it)]
+            if pre_kinds.get(wbb) == 'init' or any(x.endswith(' is None') for x in gd):
                 kind = 'init'
-            elif any(x in ('%s < %s.0' % (cur, it), 'gt(%s.0, %s)' % (it, cur)) for x in gd for cur in curs):
+            elif any(x in ('%s < %s.0' % (cur, it), 'gt(%s.0, %s)' % (it, cur)) for x in gd for cur in curs2):
                 kind = 'max'
-            elif any(x in ('%s.0 < %s' % (it, cur), 'lt(%s.0, %s)' % (it, cur)) for x in gd for cur in curs):
+            elif any(x in ('%s.0 < %s' % (it, cur), 'lt(%s.0, %s)' % (it, cur)) for x in gd for cur in curs2):
                 kind = 'min'
             else:
                 kind = 'other:%s' % gd
